@@ -6,10 +6,16 @@
   block n is listed in the file header (slot n) when n < 72 and otherwise in extension block (n-72)/72 at
   slot (n-72)%72.  All statements are for every position and size (no bound), both block sizes; the
   32-bit side conditions of the C code (no wrap-around in pos - 72*bs, bs*72) are theorems too.
+  The data path inside one data block: a write that fits into the current block performs no device access, returns the
+  count asked for and puts exactly the caller's bytes at the position's offset of the handle's buffer (every other byte
+  of the buffer kept); a flush writes that buffer to the block the handle designates (FFS: the 512 bytes as they are) and
+  nothing but the file's own extension block, header and the bitmap besides; and (C19_read_returns_disk_bytes) what a
+  read delivers is the disk content of the block the handle designates.
   NOT proved here (see MANIFEST level_note): that the read/write/truncate loops of the model refine the
-  byte-array file; that verdict comes from the byte-array oracle on the real code.
+  byte-array file across block boundaries and allocations; that verdict comes from the byte-array oracle on the real code.
 -/
 import AdfModel.FileUtil
+import AdfProofs.FlushWriteSet
 namespace Adf.C01
 open Adf
 
@@ -210,5 +216,35 @@ example : pos2DataBlock (72 * 488) 488 = ⟨some 0, 0, 0, 72⟩ ∧ pos2DataBloc
           fileSize2Datablocks (72 * 512) 512 = 72 ∧ fileSize2Datablocks (72 * 512 + 1) 512 = 73 ∧
           fileDatablocks2Extblocks 72 = 0 ∧ fileDatablocks2Extblocks 73 = 1 ∧ fileDatablocks2Extblocks 144 = 1 ∧
           fileDatablocks2Extblocks 145 = 2 := by decide
+
+/-- **a write inside the current data block** (position not on a block boundary, `buf` no longer than what is left of the
+    block): no device access at all, the count returned is the count asked for, the handle is `wroteInBlock` -/
+theorem C01_write_in_block (c : Cfg) (dbs doff fuel : Nat) (h : FileH) (buf : Bytes) (written : Nat) (s : St)
+    (hmid : h.pos % dbs ≠ 0) (hne : buf ≠ []) (hfit : buf.length ≤ dbs - h.posInDataBlk) :
+    run c (fileWriteLoop dbs doff (fuel + 1) h buf written) s = (.ok (written + buf.length, wroteInBlock doff h buf), s) :=
+  fileWriteLoop_in_block c dbs doff fuel h buf written s hmid hne hfit
+
+/-- afterwards the buffer holds the caller's bytes at the position's offset, every other byte of it is unchanged, and the
+    position advanced by the count -/
+theorem C01_buffer_holds_written_bytes (doff : Nat) (h : FileH) (buf : Bytes) (hin : doff + h.posInDataBlk + buf.length ≤ 512) :
+    slice (wroteInBlock doff h buf).curData (doff + h.posInDataBlk) buf.length = buf ∧
+    (∀ i, i < doff + h.posInDataBlk ∨ doff + h.posInDataBlk + buf.length ≤ i →
+      (wroteInBlock doff h buf).curData.getD i 0 = (padTo h.curData 512).getD i 0) ∧
+    (wroteInBlock doff h buf).pos = h.pos + buf.length ∧ (wroteInBlock doff h buf).curDataPtr = h.curDataPtr :=
+  ⟨wroteInBlock_holds doff h buf hin, fun i hi => wroteInBlock_frame doff h buf i hin hi, rfl, rfl⟩
+
+/-- a flush hands exactly that buffer to the device, addressed to the block the handle designates; on FFS volumes the
+    sector image is the buffer itself -/
+theorem C01_flush_writes_buffer (c : Cfg) (h : FileH) (s : St) (hwf : BlkWF h.hdr)
+    (hnc : isDIRCACHE (c.vol h.vol).dosType = false) :
+    Post AnyFault c (fileFlush h) s (fun _ s' => ∃ W, writesOf s'.trace = W ++ writesOf s.trace ∧ FlushWrites c h W) :=
+  fileFlush_write_set c h s hwf hnc
+
+theorem C01_ffs_image_is_buffer (vc : VolCfg) (d : Bytes) (hffs : vc.dosType % 2 ≠ 0) (hl : d.length = 512) :
+    dataImage vc d = d := by
+  unfold dataImage; rw [if_neg hffs]; exact padTo_id d 512 hl
+
+/-- the premises of `C01_write_in_block` are met, e.g., by 3 bytes written at position 5 of a 512-byte block -/
+example : (5 % 512 ≠ 0) ∧ (([1, 2, 3] : Bytes) ≠ []) ∧ ([1, 2, 3] : Bytes).length ≤ 512 - 5 := by decide
 
 end Adf.C01
